@@ -95,8 +95,6 @@ func (h *Handler6) PingAll() error {
 	return h.session.ICMP6SendEchoRequest(packet.Addr{MAC: h.session.NICInfo.HostAddr4.MAC, IP: h.session.NICInfo.HostLLA.Addr()}, packet.IP6AllNodesAddr, 99, 1)
 }
 
-var repeat int = -1
-
 // ProcessPacket handles icmp6 packets and executes neighbor
 // advertising spoofing for target LLAs.
 func (h *Handler6) ProcessPacket(pkt packet.Frame) (err error) {
@@ -191,11 +189,6 @@ func (h *Handler6) ProcessPacket(pkt packet.Frame) (err error) {
 			close(ch) // this will cause all spoof loop select to wakeup
 		}
 		h.Unlock()
-
-		repeat++
-		if repeat%4 != 0 { // skip if too often - home router send RA every 4 sec
-			break
-		}
 
 		// Protect agains nil host
 		// NS source IP is sometimes ff02::1 (multicast), which means that host is not in the table (nil)
